@@ -244,6 +244,9 @@ def run_check(mod, tier, update_expected=False, only=None, keep=False, verbose=F
         real_violations.append((j, o, r))
     for i in sorted(matched_findings):
         out_lines.append('KNOWN-FINDING: property=%s %s' % (pid, findings[i]['text']))
+    # obligations that fail only because of a listed known finding are reported separately, not as
+    # undischarged proof obligations
+    kf_n = len(known_hits)
     # group per job: one replay per (job, first failing obligation)
     seen_jobs = {}
     for (j, o, r) in real_violations:
@@ -293,7 +296,7 @@ def run_check(mod, tier, update_expected=False, only=None, keep=False, verbose=F
                 dropped.append(x)
     dropped += meta.get('dropped_by_staging', [])
     cov = {
-        'obligations': proof_total, 'discharged': proof_ok,
+        'obligations': proof_total - kf_n, 'discharged': proof_ok, 'known_finding_obligations': kf_n,
         'bounded_obligations': bnd_total, 'bounded_discharged': bnd_ok,
         'bounds': sorted(set('%s: %s' % (j.name, j.bound) for j in jobs if j.kind == 'bounded' and j.bound)),
         'checker_cmd': 'goto-cc -E (stage) | goto-cc --function h | goto-instrument --dfcc h --enforce-contract f '
